@@ -109,4 +109,56 @@ theorem and3_eq_mod4 (k : Nat) : cbitand (k : Int) 3 = ((k % 4 : Nat) : Int) := 
   rw [this]
   rfl
 
+/-- the caller contract of `NLModel` (nl-model.h: arrays of `num_col_` / `num_row_` / `num_nz_` entries, indices in range,
+row starts nondecreasing and inside the nonzero array) -/
+structure WF (m : MatrixModel) : Prop where
+  lb_len : m.lb.length = m.n
+  ub_len : m.ub.length = m.n
+  types_len : ∀ t, m.types = some t → t.length = m.n
+  c_len : ∀ c, m.c = some c → c.length = m.n
+  q_start_len : m.Q.start.length = m.n
+  q_val_len : m.Q.value.length = m.Q.index.length
+  q_idx : ∀ c ∈ m.Q.index, c < m.n
+  q_start_le : ∀ s ∈ m.Q.start, s ≤ m.Q.nnz
+  q_start_mono : m.Q.start.Pairwise (· ≤ ·)
+  a_start_len : m.A.start.length = m.m
+  a_val_len : m.A.value.length = m.A.index.length
+  a_idx : ∀ c ∈ m.A.index, c < m.n
+  a_start_le : ∀ s ∈ m.A.start, s ≤ m.A.nnz
+  a_start_mono : m.A.start.Pairwise (· ≤ ·)
+  rlb_len : m.rlb.length = m.m
+  rub_len : m.rub.length = m.m
+  ws_idx : ∀ e ∈ m.ws, e.1 < m.n
+  dws_idx : ∀ e ∈ m.dws, e.1 < m.m
+
+theorem walkDesc_pos_lt (start : List Nat) (N : Nat) (hs : ∀ s ∈ start, s ≤ N) (k pe : Nat) (hpe : pe ≤ N) :
+    ∀ e ∈ walkDesc start k pe, e.2 < N := by
+  induction k generalizing pe with
+  | zero => simp [walkDesc]
+  | succ k ih =>
+    intro e he
+    rw [walkDesc_succ, List.mem_append] at he
+    rcases he with he | he
+    · simp only [rowList, List.mem_map, List.mem_range'_1] at he
+      obtain ⟨p, hp, rfl⟩ := he
+      show p < N
+      omega
+    · have hk : start.getD k 0 ≤ N := by
+        by_cases h : k < start.length
+        · rw [getD_eq_getElem' _ _ h]; exact hs _ (List.getElem_mem h)
+        · rw [List.getD_eq_getElem?_getD, List.getElem?_eq_none (by omega)]; exact Nat.zero_le _
+      exact ih _ hk e he
+
+theorem mem_takeWhile_true {α} {p : α → Bool} {l : List α} {x : α} (h : x ∈ l.takeWhile p) : p x = true := by
+  induction l with
+  | nil => cases h
+  | cons a t ih =>
+    rw [List.takeWhile_cons] at h
+    cases hp : p a
+    · rw [hp] at h; cases h
+    · rw [hp] at h
+      rcases List.mem_cons.mp h with h | h
+      · rw [h]; exact hp
+      · exact ih h
+
 end MpVerif.C08
